@@ -445,6 +445,10 @@ class TypeInstance(Type):
     def __contains__(self, value: TypeInstance) -> bool:
         a = self.follow()
         b = value.follow()
+        if isinstance(a, TypeVariable) and isinstance(b, TypeVariable):
+            # two distinct wildcards match each other, but neither occurs in
+            # the other: variables are compared by identity
+            return a is b
         return a.match(b) is True or (
             isinstance(a, TypeOperation)
             and any(b in t for t in a.params))
